@@ -92,10 +92,10 @@ def renderBuilt (b : Built) (probes : List (Key × Nat)) (prog : String) : Strin
   ++ " aerr=" ++ encList "," (sortBy ltStr (b.loadErrors.map renderLoadErr))
   ++ " berr=" ++ encList "," (sortBy ltStr (b.buildErrors.map renderBuildErr))
   ++ " files=" ++ encList ";" (fileApps.map (fun a =>
-        encStr a.name ++ ":" ++ encClass a ++ ":"
+        encStr a.name ++ ":" ++ (if a.tiny then "-" else encClass a) ++ ":"
           ++ (if a.kind = 1 then (if a.append then "k" else "g") else "-")))
   ++ " w=" ++ encList ";" (fileApps.map (fun a =>
-        encStr a.name ++ ":" ++ encList "." ((written b probes a).map toString)))
+        encStr a.name ++ ":" ++ encList "." (if a.tiny then [] else (written b probes a).map toString)))
   ++ " prog=" ++ prog
 
 def renderLossy (probes : List (Key × Nat)) (prog : String) : Outcome Err Built → String
@@ -124,7 +124,10 @@ def meaningApp (a : AppL) : AppenderDesc :=
     enc := match a.enc with
       | none => 0
       | some e => if e.json then 2 else if e.pattern then 1 else 0
-    filters := (a.filters.getD []).map (fun t => (parseLevel t).getD 0) }
+    filters := (a.filters.getD []).map (fun t => (parseLevel t).getD 0)
+    tiny := a.kind = 2 && (match a.trig with
+      | .size l => (match parseSize l with | .ok n => n < TINY_LIMIT | .error _ => false)
+      | _ => false) }
 
 def meaningLogger (l : LoggerL) : LoggerCfg :=
   { name := l.name, level := (parseLevel l.level).getD 0, additive := l.additive.getD true,
